@@ -34,7 +34,7 @@ GETTERS = ['results', 'short', 'long', 'debug']
 
 
 def budget(tier):
-    return 5000 if tier == 'quick' else 150000
+    return 8000 if tier == 'quick' else 150000
 
 
 @st.composite
@@ -60,9 +60,10 @@ def _cases(draw, tier):
                                          'results', 'short', 'long', 'debug', 'other',
                                          'solve', 'results', 'short', 'long', 'debug',
                                          'results', 'short', 'long', 'debug', 'touch_file',
-                                         'solve_cut'])))
+                                         'solve_cut', 'solve_cut'])))
     cut = [draw(st.sampled_from([0, 0, 1, 2, 3])),
-           draw(st.sampled_from(['NotSolved', 'NotSolved', 'Infeasible', 'Undefined']))]
+           draw(st.sampled_from(['NotSolved', 'NotSolved', 'NotSolved', 'Infeasible',
+                                 'Undefined']))]
     # solve(timeLimit=...) of the successive solves (cyclic) and the steps of the owned clock:
     # a limit may be met by one solve and long exceeded when a later solve runs without one
     limits = draw(st.lists(st.sampled_from([None, None, None, 5, 60, 3600]), min_size=1,
